@@ -214,7 +214,8 @@ func c16Run(rc *RunCtx) *Violation {
 			}
 		}
 	case len(form) >= 3 && form[:3] == "ws:":
-		txt := []byte("plain text before the tag")
+		// the user's text may itself end in blanks: only the tag may be removed
+		txt := []byte("plain text before the tag" + []string{"", " ", "\t ", " \t\t"}[(a.Cfg.Pol+b.Cfg.Pol)%4])
 		msg := append(cp(txt), []byte(refotr.WhitespaceBase)...)
 		for _, c := range form[3:] {
 			switch c {
@@ -298,6 +299,48 @@ func c16Run(rc *RunCtx) *Violation {
 				}
 			}
 		}
+	}
+	if viol == nil && expectB != 0 && a.Conv.IsEncrypted() && b.Conv.IsEncrypted() {
+		// ---- offers arriving inside the running session (a second client of the peer, a stale or
+		// injected query): whatever they list, the session keeps the version it negotiated, and
+		// keeps working - inside the 60 s window in which repeated queries are ignored and after it
+		sessionV := expectB
+		w.Observers = append(w.Observers, func(p *Party, r *CallResult) {
+			for _, o := range r.Out {
+				if v := otrVersionOf(o); v != 0 && v != sessionV && viol == nil {
+					viol = rc.Viol("session.version-changed", fmt.Sprintf("%s emitted a version %d message in a session negotiated as version %d, after an offer arrived inside the session: %s", p.Name, v, sessionV, short(o)), nil)
+				}
+			}
+		})
+		late := []string{"?OTRv2?", "?OTRv3?", "?OTR?v2?", "?OTRv23?", "?OTRv4?"}
+		for round := 0; round < 2 && viol == nil; round++ {
+			if round == 1 {
+				w.Tick(tickDur[3])
+			}
+			for qi, q := range late {
+				to := (qi + round) % 2
+				w.Put(1-to, to, []byte(q), false, -1, -1, "late-query")
+				w.Drain(400)
+				if viol != nil {
+					break
+				}
+				for i := 0; i < 2; i++ {
+					p := w.P[i]
+					if !p.Conv.IsEncrypted() {
+						continue
+					}
+					txt := w.GenText(p, 2, 0)
+					r := p.Send(txt)
+					w.Enqueue(p, r)
+					w.Drain(400)
+					got := w.Got[1-i]
+					if viol == nil && (len(got) == 0 || !bytes.Equal(got[len(got)-1], txt)) {
+						return rc.Viol("session.broken-by-offer", fmt.Sprintf("after the offer %q arrived at %s inside the version %d session, a text from %s is no longer delivered (Send error %q)", q, w.P[to].Name, sessionV, p.Name, r.Err), nil)
+					}
+				}
+			}
+		}
+		rc.Probe("late_offers_checked")
 	}
 	if viol != nil {
 		return viol
